@@ -66,7 +66,7 @@ def cmdServerNick (c : Ctx) (sid : Id) (m : IrcMsg) : Res Ctx := do
   | some st =>
     let c := { c with st := st }
     let p3 ← param m 3
-    let c ← modS c id fun ss => updateIrcPrefix { ss with nick := p0, username := p3, realname := m.trailing }
+    let c ← modS c id fun ss => updateIrcPrefix { ss with nick := p0, username := truncateUsername p3, realname := m.trailing }
     pure { c with st := { c.st with nicks := AMap.set c.st.nicks (nickToLower p0) id } }
 
 def cmdServerQuit (c : Ctx) (sid : Id) (m : IrcMsg) : Res Ctx := do
